@@ -78,3 +78,17 @@ char *realpath(const char *path, char *resolved)
     }
     return real(path, resolved);
 }
+
+/* VERIF_SELECT_DELAY_MS=<n>: after every select(2) that reports a readable descriptor, sleep n ms before returning - the process
+ * is "descheduled" between learning that a descriptor is ready and acting on it, so that timers armed before the call have
+ * expired by the time the caller looks at them (a schedule that happens on a loaded machine; used to replay wake-ups in which a
+ * timer expiry and a token arrival coincide). */
+#include <sys/select.h>
+int select(int nfds, fd_set *r, fd_set *w, fd_set *e, struct timeval *tv) {
+    static int (*real_select)(int, fd_set *, fd_set *, fd_set *, struct timeval *);
+    if (!real_select) real_select = dlsym(RTLD_NEXT, "select");
+    int rc = real_select(nfds, r, w, e, tv);
+    const char *d = getenv("VERIF_SELECT_DELAY_MS");
+    if (rc > 0 && d && *d) usleep((useconds_t)atoi(d) * 1000);
+    return rc;
+}
